@@ -5,11 +5,13 @@
 package e2e
 
 import (
+	"bytes"
 	"context"
 	"errors"
 	"fmt"
 	"hash/crc32"
 	"io"
+	"runtime"
 	"sort"
 	"strconv"
 	"strings"
@@ -81,6 +83,8 @@ type World struct {
 	issued    []string
 	seen      map[string]bool
 	enc       *sm.Enc
+	mparks    map[string]chan chan struct{} // parked Marshal of invp operations
+	parkAt    map[string]bool               // operations that park after newStream's hand-off
 	hid       int
 	Failed    string
 	last      Obs
@@ -146,27 +150,65 @@ var (
 	evMu     sync.Mutex
 	evOrder  []string            // manager keys in order of first appearance
 	evTraces map[string][]string // manager key -> events "name:id"
+	evWho    map[string][]string // manager key -> reporting goroutine of each event: role letter + goroutine id
 )
+
+// whoReports names the goroutine inside the Event hook: r (manageReader), m (manageStreams), c / s / x
+// (a caller inside NewClientStream / NewServerStream / Close) followed by the goroutine id.
+func whoReports() string {
+	var pcs [32]uintptr
+	n := runtime.Callers(3, pcs[:])
+	frames := runtime.CallersFrames(pcs[:n])
+	role := "u"
+	for {
+		fr, more := frames.Next()
+		switch {
+		case strings.HasSuffix(fr.Function, "drpcmanager.(*Manager).manageReader"):
+			role = "r"
+		case strings.HasSuffix(fr.Function, "drpcmanager.(*Manager).manageStreams"):
+			role = "m"
+		case strings.HasSuffix(fr.Function, "drpcmanager.(*Manager).NewClientStream"):
+			role = "c"
+		case strings.HasSuffix(fr.Function, "drpcmanager.(*Manager).NewServerStream"):
+			role = "s"
+		case strings.HasSuffix(fr.Function, "drpcmanager.(*Manager).Close"):
+			role = "x"
+		}
+		if role != "u" || !more {
+			break
+		}
+	}
+	var buf [64]byte
+	b := buf[:runtime.Stack(buf[:], false)] // "goroutine 123 [running]:…"
+	b = bytes.TrimPrefix(b, []byte("goroutine "))
+	if i := bytes.IndexByte(b, ' '); i >= 0 {
+		b = b[:i]
+	}
+	return role + string(b)
+}
 
 func init() {
 	drpcdebug.SetEventHook(func(obj interface{}, name string, id uint64) {
 		key := fmt.Sprintf("%p", obj)
+		who := whoReports()
 		evMu.Lock()
 		if evTraces == nil {
-			evTraces = map[string][]string{}
+			evTraces, evWho = map[string][]string{}, map[string][]string{}
 		}
 		if _, ok := evTraces[key]; !ok {
 			evOrder = append(evOrder, key)
 		}
 		evTraces[key] = append(evTraces[key], fmt.Sprintf("%s:%d", name, id))
+		evWho[key] = append(evWho[key], who)
 		evMu.Unlock()
 	})
 }
 
-// ResetEvents forgets the recorded manager events; TakeEvents returns them per manager.
+// ResetEvents forgets the recorded manager events; TakeEvents returns them per manager, and
+// TakeEventsWho the same with the reporting goroutine in front of each event.
 func ResetEvents() {
 	evMu.Lock()
-	evOrder, evTraces = nil, map[string][]string{}
+	evOrder, evTraces, evWho = nil, map[string][]string{}, map[string][]string{}
 	evMu.Unlock()
 }
 
@@ -180,12 +222,35 @@ func TakeEvents() [][]string {
 	return out
 }
 
+func TakeEventsWho() [][]string {
+	evMu.Lock()
+	defer evMu.Unlock()
+	var out [][]string
+	for _, k := range evOrder {
+		var tr []string
+		for i, e := range evTraces[k] {
+			tr = append(tr, evWho[k][i]+":"+e)
+		}
+		out = append(out, tr)
+	}
+	return out
+}
+
 func NewWorld(cfg Config) *World {
 	ResetEvents()
 	w := &World{D: director.New(), Cfg: cfg, streams: map[int]drpc.Stream{}, ctxs: map[int]context.CancelFunc{},
 		ctxv: map[int]context.Context{}, seen: map[string]bool{}, enc: &sm.Enc{}}
 	w.P, w.A, w.B = director.NewPipe()
 	w.P.Flow = true
+	// operations named by hpark!op park at the scheduling point after newStream's hand-off
+	drpcdebug.SetPointHook(w.D.PointHook(func(op, point string) bool {
+		if point != "manager.newStream.handoff" {
+			return false
+		}
+		w.mu.Lock()
+		defer w.mu.Unlock()
+		return w.parkAt[op]
+	}))
 	mopts := drpcmanager.Options{
 		WriterBufferSize: cfg.WBuf,
 		SoftCancel:       cfg.Soft,
@@ -314,6 +379,42 @@ func (w *World) Do(act string) string {
 			}
 			return "ok:" + Describe(out)
 		})
+	case "invp": // invp!op!idx!prog!len!ctx : as inv, but Marshal of the request parks until mrel!op
+		idx, l, cid := atoi(f[2]), atoi(f[4]), atoi(f[5])
+		ctx := w.ctx(cid)
+		enc := &sm.Enc{MPark: make(chan chan struct{}, 1)}
+		if w.mparks == nil {
+			w.mparks = map[string]chan chan struct{}{}
+		}
+		w.mparks[f[1]] = enc.MPark
+		w.issue(f[1], func() string {
+			var out []byte
+			err := w.Conn.Invoke(ctx, rpcName(idx, f[3]), enc, Payload(idx, 1, 0, l), &out)
+			if err != nil {
+				return errName(err)
+			}
+			return "ok:" + Describe(out)
+		})
+	case "hpark": // hpark!op : the operation will park after handing its new stream to manageStreams
+		w.mu.Lock()
+		if w.parkAt == nil {
+			w.parkAt = map[string]bool{}
+		}
+		w.parkAt[f[1]] = true
+		w.mu.Unlock()
+	case "prel": // prel!op : let it run on
+		w.mu.Lock()
+		delete(w.parkAt, f[1])
+		w.mu.Unlock()
+		w.D.ReleasePoint(f[1])
+	case "mrel": // release the parked Marshal of an invp
+		if ch := w.mparks[f[1]]; ch != nil {
+			select {
+			case rel := <-ch:
+				close(rel)
+			default:
+			}
+		}
 	case "new": // new!op!idx!prog!ctx[!meta]
 		idx, cid := atoi(f[2]), atoi(f[4])
 		ctx := w.ctx(cid)
